@@ -58,7 +58,7 @@ theorem ER_closeF {S : SelE} {e : Ep} {x x' : JEp} (h : ER S e x) (hx : x.closed
   · intro hc; rw [h3, hx] at hc; cases hc
   · intro hc; rw [h3, hx] at hc; cases hc
 
-theorem closeEp_sim (S : SelE) (op : LOp) (st : State) (j : J) (e : Ep) (h : Mid S st j) (hcb : CB j)
+theorem closeEp_sim (S : SelE) (op : LOp) (hnr : Nng.LifeSpec.isRace op = false) (st : State) (j : J) (e : Ep) (h : Mid S st j) (hcb : CB j)
     (hcur : ∀ e' ∈ st.eps, e'.idx = e.idx → (e'.userAio = true → e.userAio = true) ∧
       (e'.closed = true ∨ S e'.idx e'.sock e'.dialer = true)) :
     Mid S (closeEp st e).1 ((closeEp st e).2.foldl (onOut op) j) ∧ SameJ j ((closeEp st e).2.foldl (onOut op) j) := by
@@ -97,7 +97,7 @@ theorem closeEp_sim (S : SelE) (op : LOp) (st : State) (j : J) (e : Ep) (h : Mid
   obtain ⟨j1, hj1, hm1, hs1⟩ := hmid
   rw [hj1]
   have hcb1 : CB j1 := by intro s x hx; rw [hs1.2.1] at hx; exact hcb s x hx
-  obtain ⟨h2, s2⟩ := killPipes_sim S op (liveOf (setEp st e.idx closeF) fun p => p.ep == e.idx) _ j1 hm1 hcb1
+  obtain ⟨h2, s2⟩ := killPipes_sim S op hnr (liveOf (setEp st e.idx closeF) fun p => p.ep == e.idx) _ j1 hm1 hcb1
   exact ⟨h2, hs1.trans s2⟩
 
 
@@ -114,7 +114,7 @@ theorem closeEps_stable (es : List Ep) (st : State) : EpsStable st (closeEps st 
   | nil => exact EpsStable.refl st
   | cons e rest ih => rw [closeEps_cons]; exact (closeEp_stable st e).trans (ih _)
 
-theorem closeEps_sim (S : SelE) (op : LOp) (es : List Ep) (st : State) (j : J) (h : Mid S st j) (hcb : CB j)
+theorem closeEps_sim (S : SelE) (op : LOp) (hnr : Nng.LifeSpec.isRace op = false) (es : List Ep) (st : State) (j : J) (h : Mid S st j) (hcb : CB j)
     (hcur : ∀ e ∈ es, ∀ e' ∈ st.eps, e'.idx = e.idx → (e'.userAio = true → e.userAio = true) ∧
       (e'.closed = true ∨ S e'.idx e'.sock e'.dialer = true)) :
     Mid S (closeEps st es).1 ((closeEps st es).2.foldl (onOut op) j) ∧ SameJ j ((closeEps st es).2.foldl (onOut op) j) := by
@@ -123,7 +123,7 @@ theorem closeEps_sim (S : SelE) (op : LOp) (es : List Ep) (st : State) (j : J) (
   | cons e rest ih =>
     rw [closeEps_cons]
     simp only [List.foldl_append]
-    obtain ⟨h1, s1⟩ := closeEp_sim S op st j e h hcb (hcur e List.mem_cons_self)
+    obtain ⟨h1, s1⟩ := closeEp_sim S op hnr st j e h hcb (hcur e List.mem_cons_self)
     have hcb1 : CB ((closeEp st e).2.foldl (onOut op) j) := by
       intro s x hx; rw [s1.2.1] at hx; exact hcb s x hx
     have hcur1 : ∀ e2 ∈ rest, ∀ e' ∈ (closeEp st e).1.eps, e'.idx = e2.idx → (e'.userAio = true → e2.userAio = true) ∧
